@@ -19,6 +19,7 @@ import (
 //	rdall2                 every pair of cuts (packets <= 200 B, thorough)
 //	nb <name>  nfb <hex>  cb <comp>  cfb <hex>     standalone name / component codecs
 //	rx D|I|P <hex> <cuts>  decode arbitrary bytes (corpus / replays)
+//	cmp                    repeats the output of the make op (compared with the model HERE)
 func gen(g *common.Gen) {
 	r := g.R
 	for i := 0; i < g.N; i++ {
@@ -60,12 +61,16 @@ func gen(g *common.Gen) {
 		if sh.Big || sh.Huge {
 			g.Stat("shape-big")
 		}
+		// model-vs-implementation comparison of the make op, placed last so that every SPEC
+		// predicate of the history is evaluated before a DIFF stops it
+		g.Op("cmp")
 	}
 }
 
 var (
-	last     *Built
-	lastBlob []byte
+	last      *Built
+	lastBlob  []byte
+	lastMkOut string
 )
 
 func allCuts(kind byte, b []byte, two bool) string {
@@ -100,16 +105,21 @@ func exec(op string) string {
 	f := common.Fields(op)
 	switch f[0] {
 	case "new":
-		last, lastBlob = nil, nil
+		last, lastBlob, lastMkOut = nil, nil, ""
 		return "ok"
 	case "mkd":
 		out, b := MakeData(f)
-		last = b
+		last, lastMkOut = b, out
 		return out
 	case "mki":
 		out, b := MakeInterest(f)
-		last = b
+		last, lastMkOut = b, out
 		return out
+	case "cmp":
+		if lastMkOut == "" {
+			return "skip"
+		}
+		return lastMkOut
 	case "rd":
 		if last == nil {
 			return "skip"
